@@ -4,11 +4,10 @@ from __future__ import annotations
 import ast
 import base64
 
-from sa.astx import call_name
 from sa.domains import fmt_set
 from sa.selftest import Mutant, Silent
 from sa.source import AnalysisError
-from sa.props._lib_i import sect, COMPAT, BlockRaised, Raised, interp, module_env
+from sa.props._lib_i import sect, COMPAT, BlockRaised, FollowModule, Raised, interp, module_env
 
 PROPERTY = "C41"
 SMTP = "mail/smtp.py"
@@ -67,7 +66,8 @@ def _check_xtext(ctx):
     env0 = module_env(ctx.mod(SMTP))
     f = ctx.func(SMTP, "xtext_encode")
     q = "twisted.mail.smtp.xtext_encode"
-    enc = interp(f, COMPAT, env0)
+    smod = ctx.mod(SMTP)
+    enc = interp(f, FollowModule(smod, dict(COMPAT), env0), env0)
     outs = {}
     for v in range(256):
         got, err = _call(enc, bytes([v]))
@@ -100,7 +100,7 @@ def _check_xtext(ctx):
     # ---- decoder on every encoded unit, with continuations
     f = ctx.func(SMTP, "xtext_decode")
     q = "twisted.mail.smtp.xtext_decode"
-    dec = interp(f, COMPAT, env0)
+    dec = interp(f, FollowModule(smod, dict(COMPAT), env0), env0)
     bad_val = bad_len = None
     for v in range(256):
         unit = _xtext_ref(v)
@@ -131,10 +131,10 @@ def _check_utf7_encoder(ctx):
     mod = ctx.mod(IMAP)
     f = ctx.func(IMAP, "encoder")
     q = "twisted.mail.imap4.encoder"
-    helper_names = {call_name(x) for x in ast.walk(f) if isinstance(x, ast.Call) and isinstance(x.func, ast.Name) and mod.find(x.func.id) is not None}
-    ctx.need(len(helper_names) == 1, f"exactly one base64 helper called from {q}")
-    helper = helper_names.pop()
-    enc = interp(f, {**COMPAT, helper: _marker}, module_env(mod))
+    helper = "modified_base64"
+    ctx.need(isinstance(mod.find(helper), ast.FunctionDef), f"imap4.{helper}")
+    menv = module_env(mod)
+    enc = interp(f, FollowModule(mod, {**COMPAT, helper: _marker}, menv), menv)
 
     def run(text):
         got, err = _call(enc, text)
@@ -169,7 +169,7 @@ def _check_utf7_encoder(ctx):
     # stdlib utf-7 encoder emits directly come back without the '+' / '-' wrapper the helper removes.
     hf = ctx.func(IMAP, helper)
     hq = f"twisted.mail.imap4.{helper}"
-    helper_fn = interp(hf, COMPAT, {})
+    helper_fn = interp(hf, FollowModule(mod, dict(COMPAT), menv), menv)
 
     def ref_mb64(t):
         return base64.b64encode(t.encode("utf-16-be")).rstrip(b"=").replace(b"/", b",")
@@ -218,7 +218,9 @@ def _check_utf7_encoder(ctx):
 def _check_b64_helpers(ctx):
     dec = ctx.func(IMAP, "modified_unbase64")
     q = "twisted.mail.imap4.modified_unbase64"
-    unb = interp(dec, COMPAT, {})
+    imod = ctx.mod(IMAP)
+    ienv = module_env(imod)
+    unb = interp(dec, FollowModule(imod, dict(COMPAT), ienv), ienv)
     bad = None
     runs = ["é", "€é", "ééÿ", "éé¾", "ﬁ", "�", "\U0001f600", "\x00\x01", "\x7f", "ﬁle"]
     for t in runs:
@@ -235,11 +237,12 @@ def _check_utf7_decoder(ctx):
     mod = ctx.mod(IMAP)
     f = ctx.func(IMAP, "decoder")
     q = "twisted.mail.imap4.decoder"
-    funcs = dict(COMPAT)
+    denv = module_env(mod)
+    funcs = FollowModule(mod, dict(COMPAT), denv)
     funcs["modified_unbase64"] = lambda b: "<" + bytes(b).decode("ascii") + ">"
     funcs["memoryview"] = lambda b: bytes(b)
     funcs["memory_cast"] = lambda mv, fmt: [bytes(mv)[i:i + 1] for i in range(len(bytes(mv)))]       # memoryview(b).cast('c'): one-byte bytes objects
-    dec = interp(f, funcs, module_env(mod))
+    dec = interp(f, funcs, denv)
     cases = [
         ("direct text", b"ab-c", "ab-c"), ("'&-' is a literal ampersand", b"a&-b", "a&b"), ("shift sequence", b"&AOk-", "<AOk>"),
         ("shift sequence of one sextet group", b"&A-", "<A>"), ("shift sequence between direct text", b"x&AOk-y", "x<AOk>y"),
@@ -303,6 +306,13 @@ SILENT = [
     Silent("xtext-decode-via-percent-unquoting-protected", SMTP, "    r = []\n    i = 0\n    while i < len(s):\n        if s[i : i + 1] == b\"+\":\n",
            "    from urllib.parse import unquote_to_bytes\n\n    if all(c in b\"0123456789ABCDEFabcdef\" for k in range(len(s)) if s[k : k + 1] == b\"+\" for c in bytes(s[k + 1 : k + 3]).ljust(2, b\"!\")):\n"
            "        return (unquote_to_bytes(bytes(s).replace(b\"%\", b\"%25\").replace(b\"+\", b\"%\")).decode(\"latin-1\"), len(s))\n    r = []\n    i = 0\n    while i < len(s):\n        if s[i : i + 1] == b\"+\":\n"),
+    Silent("xtext-predicate-helper", SMTP, _XT, "        if _needsHexchar(o):\n",
+           more=[(SMTP, "def xtext_encode(s, errors=None):\n", "def _needsHexchar(o):\n    return o in (43, 61) or not 33 <= o <= 126\n\n\ndef xtext_encode(s, errors=None):\n")]),
+    Silent("utf7-direct-set-at-module-level", IMAP, '    valid_chars = set(map(chr, range(0x20, 0x7F))) - {"&"}\n', "    valid_chars = _DIRECT\n",
+           more=[(IMAP, "def encoder(s, errors=None):\n", "_DIRECT = frozenset(map(chr, range(0x20, 0x7F))) - {\"&\"}\n\n\ndef encoder(s, errors=None):\n")]),
+    Silent("utf7-flush-helper", IMAP, '        elif c == "&":\n            if _in:\n                r += b"&" + modified_base64("".join(_in)) + b"-"\n                del _in[:]\n            r += b"&-"\n',
+           '        elif c == "&":\n            r += _shift(_in)\n            del _in[:]\n            r += b"&-"\n',
+           more=[(IMAP, "def encoder(s, errors=None):\n", "def _shift(pending):\n    return b\"&\" + modified_base64(\"\".join(pending)) + b\"-\" if pending else b\"\"\n\n\ndef encoder(s, errors=None):\n")]),
     Silent("xtext-percent-format", SMTP, 'networkString(f"+{o:02X}")', 'b"+%02X" % (o,)'),
     Silent("utf7-valid-chars-comprehension", IMAP, '    valid_chars = set(map(chr, range(0x20, 0x7F))) - {"&"}\n', '    valid_chars = {chr(x) for x in range(32, 127) if x != 0x26}\n'),
     Silent("F41b-repaired-base64-helper", IMAP, '    s_utf7 = s.encode("utf-7")\n    return s_utf7[1:-1].replace(b"/", b",")\n',
